@@ -5,6 +5,15 @@ ROOT = os.path.dirname(os.path.dirname(os.path.abspath(__file__)))
 
 # id -> (technique, level text, level note, design ref)
 CLAIMED = {
+ "C01": ("clone-sharing analysis (for every generated clone(): each reference-typed field is re-allocated by clone or listed in a frozen shared-on-purpose table with the reason nothing writes through it after parse), field-coverage rule for uses/refine/augment statements against everything reachable from resolve(), CFG ordering rules for the phases of resolver.module and expandUses, pairing rule for the recursion guard, and control-dependence rules for config inheritance",
+         "Decides that copies of a grouping cannot share mutable state (a new reference field in a schema struct must be copied by clone or justified), that no part of a uses/refine/augment statement is stored but never applied, that includes ≺ imports ≺ own uses ≺ augments ≺ deviations and copy ≺ refine ≺ uses-augment hold on every path, that recursive groupings are guarded, and that config is inherited/validated as RFC 7950 says. That the expanded tree equals the inline tree for a given set of modules, and name scoping across submodules/imports, are not decided.",
+         "The shared-on-purpose table (about 25 field names) is the trusted part: each entry states why no post-parse write goes through the field. Four generated clone() methods that no expansion invokes are skipped with a reason.",
+         "DESIGN.md §2 C01"),
+ "C02": ("clone-sharing rule specialised to the dtype field (every copy of a typed node owns its Type), control-dependence rules for default/units inheritance in compileType (explicit value wins), must-pass-through rule for the delegate assignment on every successful return, field-coverage rule of Type.mixin against the fields a type statement stores, and a per-node-copy rule for the uses' when",
+         "Decides that compileType's early return for an already compiled type cannot skip another leaf's inheritance (each copy has its own Type), that a typedef's default/units are taken only when the leaf states none, that no successfully compiled type lacks its delegate, and that every restriction a type statement can state is carried over from the typedef by mixin. How the restrictions combine (mixin replaces patterns, appends ranges), enum/bit numbering, leafref resolution and identity closure are not decided.",
+         "Anchored on meta.compiler.compileType/findTypedef, meta.Type.mixin, meta.resolver.cloneDefs and the generated clone() methods.",
+         "DESIGN.md §2 C02"),
+
  "C11": ("dominance rule (every insertion of a guardable definition by the resolver is dominated by checkFeature on it or on its clone origin, on the on-edge), loop-exit rule (feature-off stays in the sibling loop), error-flow rule for feature evaluation, field-coverage rule (every field a deviate statement stores is read in applyDeviation/checkDeviationTarget) with a once-only loop count, and an identity-comparison rule for not-supported",
          "Decides that no guardable statement kind (data node, case, action, notification; in place, from groupings, from augments) can enter the schema unfiltered, that a disabled sibling does not take the following ones with it, that a malformed feature expression is an error, and that a deviation applies every property it states exactly once and removes a not-supported target by identity. The evaluator's precedence/associativity is a function of the expression string and is not decided; nor is the polarity of the equality tests in deviate delete.",
          "Clone origin is followed through .clone(...) calls and type assertions; five insertion sites are exempt with reasons (re-insertion of already filtered definitions, the filtering wrapper itself).",
